@@ -167,16 +167,27 @@ func genC04(seed uint64, tier string, idx int) *Plan {
 		v19 := g.r.chance(50)
 		ci := g.addConn("service", v19, g.distinctPhone(v19, used))
 		n := 1 + g.r.intn(12)
+		long := c == 0 && g.r.chance(3)
+		if long {
+			// a long-lived connection: more than 8 KB of ordinary frames whose reads hardly ever end on a frame
+			// boundary, so that the pending buffer is never empty
+			n = 90 + g.r.intn(80)
+			p.Faults = append(p.Faults, "input.long_misaligned_stream")
+		}
 		var frames []SentFrame
 		for i := 0; i < n; i++ {
 			id := g.randID()
 			max := 1023
-			if g.r.chance(70) {
+			if g.r.chance(70) || long {
 				max = 120
 			}
 			frames = append(frames, g.mkFrame(ci, id, g.randSerial(), g.body(g.bodyLen(max), g.r.intn(4))))
 		}
-		a := g.connActor(ci, frames, g.segStyle(), 15)
+		style := g.segStyle()
+		if long {
+			style = "random"
+		}
+		a := g.connActor(ci, frames, style, 15)
 		if prelude != nil {
 			a.Ops[0].After = &Dep{Actor: prelude.Name, N: len(prelude.Ops)}
 		}
